@@ -11,12 +11,15 @@ Bool2 == {Un(Sq, Cir(V2(4, -2), A0(4))), Un(Cir(V2(0, 0), A0(6)), Tri(V2(-10, -4
           An(Cir(V2(0, 0), A0(6)), Tri(V2(-10, -4), V2(6, -8), V2(2, 10))), An(Sq, Cir(<<A1(-4, "t"), A0(0)>>, A1(2, "k")))}
 Transf2 == {Tr(p, t) : p \in {Cir(V2(0, 0), A0(6)), Tri(V2(0, 0), V2(10, 0), V2(0, 8))}, t \in {V2(4, -2), <<A1(0, "t"), A0(2)>>}}
            \cup {Ro(p, m, V2(2, -4)) : p \in {Sq, Tri(V2(-10, -4), V2(6, -8), V2(2, 10))}, m \in {"r90", "p345", "p51213"}}
-U2 == Prims2 \cup Bool2 \cup Transf2
+PolyB2 == {Un(Poly(<<RingL>>), Cir(V2(4, -2), A0(4))), Cu(Cir(V2(0, 0), A0(6)), Poly(<<RingL>>))}
+U2 == Prims2 \cup Bool2 \cup Transf2 \cup Polys \cup {Ro(Poly(<<RingL>>), "p345", V2(2, -4))}
 Scen ==
     {[Base EXCEPT !.g = 16] @@ [expr |-> x, law |-> "uniform", N |-> 16384, log |-> "boxes", check |-> "uniform2"] : x \in U2}
-    \cup {[Base EXCEPT !.d = 2000, !.g = 16] @@ [expr |-> x, law |-> "uniform_d", N |-> 0, log |-> "boxes", check |-> "uniform2"] : x \in Bool2 \cup {Cir(V2(0, 0), A0(6)), Sq}}
+    \* (membership of a polygon is a loop over the points: fewer points where a polygon filters the candidates of another shape)
+    \cup {[Base EXCEPT !.g = 16] @@ [expr |-> x, law |-> "uniform", N |-> 4096, log |-> "boxes", check |-> "uniform2"] : x \in PolyB2}
+    \cup {[Base EXCEPT !.d = 2000, !.g = 16] @@ [expr |-> x, law |-> "uniform_d", N |-> 0, log |-> "boxes", check |-> "uniform2"] : x \in Bool2 \cup {Cir(V2(0, 0), A0(6)), Sq} \cup Polys}
     \cup {[Base EXCEPT !.den = 4, !.nb = 32, !.g = 4, !.dim = 1] @@ [expr |-> x, law |-> "uniform", N |-> 4096, log |-> "boxes", check |-> "uniform1"] : x \in Ints}
-    \cup {Base @@ [expr |-> x, law |-> "grid", N |-> 400, log |-> "boxes", check |-> "grid2"] : x \in {p \in Prims2 : TRUE} \cup Bool2}
+    \cup {Base @@ [expr |-> x, law |-> "grid", N |-> 400, log |-> "boxes", check |-> "grid2"] : x \in {p \in Prims2 : TRUE} \cup Bool2 \cup Polys}
     \cup {[Base EXCEPT !.lo = -1, !.den = 4, !.nb = 10, !.lo4 = -4, !.mean4 = <<1>>, !.mean = <<1>>, !.std = 2, !.dim = 1]
              @@ [expr |-> I1, law |-> "gauss", N |-> 16384, log |-> "boxes", check |-> "gauss"]}
     \cup {[Base EXCEPT !.lo = 0, !.den = 4, !.nb = 8, !.lo4 = 0, !.mean4 = <<4, 4>>, !.mean = <<4, 4>>, !.std = 2, !.dim = 2]
@@ -24,7 +27,7 @@ Scen ==
     \cup {[Base EXCEPT !.dim = 1, !.blo4 = <<-4>>, !.blen4 = <<10>>] @@ [expr |-> I1, law |-> "lhs", N |-> nn, log |-> "pts", check |-> "lhs"] : nn \in {7, 16}}
     \cup {[Base EXCEPT !.dim = 2, !.blo4 = <<0, 0>>, !.blen4 = <<8, 8>>] @@ [expr |-> Sq, law |-> "lhs", N |-> nn, log |-> "pts", check |-> "lhs"] : nn \in {5, 16}}
     \cup {[Base EXCEPT !.boundary = TRUE] @@ [expr |-> x, law |-> lw, N |-> 2048, log |-> "pts", check |-> IF x.k = "circle" THEN "circlebd" ELSE "polybd"]
-             : x \in Prims2 \cup {Par(V2(-10, -2), V2(10, -2), V2(-10, 0)), Tri(V2(-10, -4), V2(10, -4), V2(-10, -2))}, lw \in {"uniform"}}
+             : x \in Prims2 \cup Polys \cup {Par(V2(-10, -2), V2(10, -2), V2(-10, 0)), Tri(V2(-10, -4), V2(10, -4), V2(-10, -2))}, lw \in {"uniform"}}
 \* ---- batches of parameter rows (the points of row `judge` are judged at that row) and histories on one domain object
 UnK == Un(Cir(V2(-5, 0), A1(2, "k")), Par(V2(6, -6), V2(12, -6), V2(6, 6)))        \* disjoint parts; the disc has radius 1/2 + k
 Rows2 == <<[t |-> 1, k |-> 0], [t |-> 1, k |-> 2]>>
@@ -40,7 +43,7 @@ Scen2 ==
     \cup {[Base EXCEPT !.g = 16, !.pre = <<Pre("uniform", 50), Pre("grid", 100)>>] @@ [expr |-> x, law |-> "uniform", N |-> 16384, log |-> "boxes", check |-> "uniform2"]
              : x \in {Cir(V2(0, 0), A0(6)), Un(Sq, Cir(V2(4, -2), A0(4)))}}
 \* ---- the share of the points that falls into the FIRST operand of a union (overlapping operands): raw points are logged
-Scen3 == {Base @@ [expr |-> x, law |-> "uniform", N |-> 8192, log |-> "pts", check |-> "share"] : x \in {y \in Bool2 : y.k = "union"}}
+Scen3 == {Base @@ [expr |-> x, law |-> "uniform", N |-> 8192, log |-> "pts", check |-> "share"] : x \in {y \in Bool2 \cup PolyB2 : y.k = "union"}}
          \cup {[Base EXCEPT !.rows = Rows2, !.judge = j, !.row = Rows2[j]] @@ [expr |-> UnK, law |-> "uniform", N |-> 4096, log |-> "pts", check |-> "share"] : j \in 1..2}
 \* ---- more laws
 \* non-equidistant interval grid: x_i = (i/(n+1))^2 resp. 1 - (i/(n+1))^2 (exponent 2 resp. 1/2; field std carries 2 / 1), scaled into the
